@@ -354,8 +354,9 @@ def profile_classes():
         return obj.evaluate(g)
 
     class MockGrid2DLikeObj:
-        def __init__(self, f=None, table=None, geom=None, shape=None):
+        def __init__(self, f=None, table=None, geom=None, shape=None, ret_int=False):
             self.centre = (0.0, 0.0)
+            self.ret_int = ret_int   # hand back an integer-dtype array (values are integral)
             self.f = f
             self.table = table
             self.geom = geom
@@ -370,8 +371,10 @@ def profile_classes():
                 h, w = self.shape
                 iy = np.clip(np.floor((oy + h * sy / 2 - g[:, 0]) / sy).astype(int), 0, h - 1)
                 ix = np.clip(np.floor((g[:, 1] - (ox - w * sx / 2)) / sx).astype(int), 0, w - 1)
-                return np.asarray(self.table[lvl])[iy * w + ix]
-            return ev_np(self.f, g[:, 0].astype(float), g[:, 1].astype(float))
+                out = np.asarray(self.table[lvl])[iy * w + ix]
+                return out.astype(np.int64) if self.ret_int else out
+            out = ev_np(self.f, g[:, 0].astype(float), g[:, 1].astype(float))
+            return out.astype(np.int64) if self.ret_int else out
 
         @aa.over_sample
         @aa.grid_dec.to_array
@@ -416,6 +419,33 @@ def rand_geom(rng, exact=False):
     return [q(sy), q(sx), q(oy), q(ox)]
 
 
+def rand_int_geom(rng):
+    """integral pixel scales and origin (passed to Mask2D as Python ints)"""
+    return [q(F(rng.choice([1, 1, 2, 3, 4]))), q(F(rng.choice([1, 2, 2, 3]))),
+            q(F(rng.randint(-4, 4))), q(F(rng.randint(-4, 4)))]
+
+
+def degenerate_mask(rng):
+    """zero / one unmasked pixel, 1x1, 1xN, Nx1, all unmasked"""
+    k = rng.choice(["all_masked", "single", "1x1", "1xN", "Nx1", "all_unmasked"])
+    if k == "1x1":
+        return [[rng.random() < 0.3]], k
+    if k == "1xN":
+        w = rng.randint(2, 6)
+        return [[rng.random() < 0.4 for _ in range(w)]], k
+    if k == "Nx1":
+        h = rng.randint(2, 6)
+        return [[rng.random() < 0.4] for _ in range(h)], k
+    h, w = rng.randint(1, 4), rng.randint(1, 4)
+    if k == "all_masked":
+        return [[True] * w for _ in range(h)], k
+    if k == "all_unmasked":
+        return [[False] * w for _ in range(h)], k
+    m = [[True] * w for _ in range(h)]
+    m[rng.randrange(h)][rng.randrange(w)] = False
+    return m, k
+
+
 def rand_mask(rng, hmax=6, wmax=6, max_unmasked=None):
     for _ in range(50):
         h, w = rng.randint(1, hmax), rng.randint(1, wmax)
@@ -453,7 +483,7 @@ def rand_func(rng, mj, g, positive=False):
     """a user function of (y,x) as an expression tree + its class name."""
     h, w = mj["h"], mj["w"]
     sy, sx, oy, ox = g
-    px = unmasked_pixels(mj)
+    px = unmasked_pixels(mj) or [(0, 0)]
     cy, cx = pixel_centre(h, w, g, *rng.choice(px))
     d = lambda lo=-4, hi=4, bits=2: gen.dyadic(rng, lo, hi, bits)
     kinds = ["const", "affine", "poly", "product", "rational", "step", "lattice", "peak", "mixed"]
@@ -610,7 +640,7 @@ class C09(PropertyCheck):
         cells = 4 if quick else 6
         for (h, w) in gen.shapes_upto(cells):
             geom = rand_geom(rng)
-            for m in gen.all_masks(h, w):
+            for m in gen.all_masks(h, w, min_unmasked=0):
                 n = sum(1 for r in m for b in r if not b)
                 alphabet = (1, 2, 3) if n <= 4 else (1, 2)
                 import itertools
@@ -619,10 +649,14 @@ class C09(PropertyCheck):
                     yield self._uniform_case(rng, m, geom, list(sub), "uniform_exhaustive")
         # 2. structured random uniform cases
         for _ in range(150 if quick else 1500):
-            m, kind = rand_mask(rng, 7, 7)
+            if rng.random() < 0.2:
+                m, kind = degenerate_mask(rng)
+            else:
+                m, kind = rand_mask(rng, 7, 7)
             n = sum(1 for r in m for b in r if not b)
-            sub, smode = rand_sub(rng, n, 900 if quick else 2500)
-            yield self._uniform_case(rng, m, rand_geom(rng), sub, f"uniform_{smode}")
+            sub, smode = rand_sub(rng, n, 900 if quick else 2500) if n else (rng.choice([1, 2, []]), "empty")
+            geom = rand_int_geom(rng) if rng.random() < 0.2 else rand_geom(rng)
+            yield self._uniform_case(rng, m, geom, sub, f"uniform_{smode}")
         # 3. user functions through every dispatch path
         for _ in range(260 if quick else 2600):
             yield self._func_case(rng, quick)
@@ -642,30 +676,53 @@ class C09(PropertyCheck):
         n = sum(1 for r in m for b in r if not b)
         total = sum(s * s for s in (sub if isinstance(sub, list) else [sub] * n))
         vals = gen.distinct_ints(rng, total)
-        if rng.random() < 0.5:
+        values_as = rng.choice(["f64", "f64", "f64", "f64", "i64", "i64", "list_int", "tuple_int", "f32",
+                                "list_float"])
+        if values_as in ("f64", "f32", "list_float") and rng.random() < 0.6:
             vals = [F(v, 8) for v in vals]
+        routes = ["direct", "over_sampling", "grid", "util", "dataset_grids"]
+        if n == len(m) * len(m[0]):
+            routes += ["grid_uniform", "grid_uniform"]
+        geom_as = "int" if all(F(v).denominator == 1 for v in geom) and rng.random() < 0.8 else "float"
         return {"tag": tag, "kind": "uniform", "mask": mask_json(m), "geom": geom, "sub": sub,
-                "values": qlist(vals), "route": rng.choice(["direct", "over_sampling", "grid"])}
+                "values": qlist(vals), "route": rng.choice(routes), "values_as": values_as,
+                "geom_as": geom_as, "sub_as": rng.choice(["ndarray", "list"])}
 
     def _func_case(self, rng, quick):
-        m, mkind = rand_mask(rng, 6, 6)
+        if rng.random() < 0.15:
+            m, mkind = degenerate_mask(rng)
+        else:
+            m, mkind = rand_mask(rng, 6, 6)
         mj = mask_json(m)
         n = mj["bits"].count("0")
-        geom = rand_geom(rng)
+        geom = rand_int_geom(rng) if rng.random() < 0.2 else rand_geom(rng)
         g = tuple(F(v) for v in geom)
-        path = rng.choice(["sampler", "decorator", "decorator", "decorator_raw", "oversampled_grid",
-                           "custom_grid", "none"])
+        paths = ["sampler", "decorator", "decorator", "decorator_raw", "oversampled_grid",
+                 "custom_grid", "none", "dataset_grids"]
+        if n == mj["h"] * mj["w"]:
+            paths += ["grid_uniform", "grid_uniform"]
+        path = rng.choice(paths)
         if path == "none":
             sub, smode = [1] * n, "adaptive_ones"
         elif path == "custom_grid" and rng.random() < 0.5:
             sub, smode = (1 if rng.random() < 0.5 else [1] * n), "ones"
+        elif n == 0:
+            sub, smode = rng.choice([1, 2, []]), "empty"
         else:
             sub, smode = rand_sub(rng, n, 500 if quick else 1500)
         f, fkind = rand_func(rng, mj, g)
         case = {"tag": f"func_{path}_{fkind}", "kind": "func", "mask": mj, "geom": geom, "sub": sub,
-                "f": f, "path": path}
+                "f": f, "path": path, "sub_as": rng.choice(["ndarray", "list"]),
+                "geom_as": "int" if all(F(v).denominator == 1 for v in geom) else "float"}
+        if f[0] == "c" and F(f[1]).denominator == 1 and rng.random() < 0.7:
+            case["ret_int"] = True          # the user function returns an integer-dtype array
         if path == "custom_grid":
-            case["grid"] = [[q(gen.dyadic(rng, -6, 6, 3)), q(gen.dyadic(rng, -6, 6, 3))] for _ in range(n)]
+            if rng.random() < 0.4:           # integer-dtype grid values (Python int lists / int64)
+                case["grid"] = [[q(F(rng.randint(-6, 6))), q(F(rng.randint(-6, 6)))] for _ in range(n)]
+                case["grid_as"] = rng.choice(["list_int", "i64"])
+            else:
+                case["grid"] = [[q(gen.dyadic(rng, -6, 6, 3)), q(gen.dyadic(rng, -6, 6, 3))] for _ in range(n)]
+                case["grid_as"] = rng.choice(["f64", "list_float"])
         return case
 
     def _steps(self, rng, n, quick):
@@ -690,7 +747,7 @@ class C09(PropertyCheck):
                     ratios.append((min(lo, hi) / max(lo, hi), lo, hi))
                 diffs.append(abs(lo - hi))
         mode = rng.choice(["hug", "hug", "hug", "fixed", "fixed", "one", "tie"])
-        fr = F(float(rng.choice([F(1, 2), F(9, 10), F(99, 100), F(9999, 10000), F(1, 4)])))
+        fr = F(float(rng.choice([F(1, 2), F(9, 10), F(99, 100), F(9999, 10000), F(9999, 10000), F(1, 4)])))
         if mode == "one":
             fr = F(1)
         elif mode in ("hug", "tie") and ratios:
@@ -701,13 +758,15 @@ class C09(PropertyCheck):
                 fr = hug(rng, r)
         if fr <= 0:
             fr = F(1, 2)
-        rmode = rng.choice(["none", "none", "big", "hug", "hug", "tie", "small"])
+        rmode = rng.choice(["none", "none", "big", "hug", "hug", "tie", "small", "zero"])
         rel = None
         nz = [d for d in diffs if d > 0]
         if rmode == "big":
             rel = F(1000)
         elif rmode == "small":
             rel = F(1, 1 << 12)
+        elif rmode == "zero":
+            rel = F(0)                       # set, but falsy: agreement then needs equal values
         elif rmode in ("hug", "tie") and nz:
             dsel = rng.choice(nz)
             rel = dsel if (rmode == "tie" and exact and F(float(dsel)) == dsel) else hug(rng, dsel)
@@ -715,11 +774,22 @@ class C09(PropertyCheck):
             fr = None
         return fr, rel
 
+    def _call_style(self, rng, geom):
+        """how the same reals are handed to the API: kwargs equal to the defaults omitted or explicit,
+        schedule as list or tuple, integral thresholds as Python ints, integral geometry as ints."""
+        return {"kw_style": rng.choice(["explicit", "explicit", "omit_defaults"]),
+                "steps_as": rng.choice(["list", "list", "tuple"]),
+                "num_as": rng.choice(["float", "int"]),
+                "geom_as": "int" if all(F(v).denominator == 1 for v in geom) else "float"}
+
     def _iterate_case(self, rng, quick):
-        m, mkind = rand_mask(rng, 6, 6, max_unmasked=14 if quick else 24)
+        if rng.random() < 0.1:
+            m, mkind = degenerate_mask(rng)
+        else:
+            m, mkind = rand_mask(rng, 6, 6, max_unmasked=14 if quick else 24)
         mj = mask_json(m)
         n = mj["bits"].count("0")
-        geom = rand_geom(rng)
+        geom = rand_int_geom(rng) if rng.random() < 0.15 else rand_geom(rng)
         g = tuple(F(v) for v in geom)
         steps = self._steps(rng, n, quick)
         f, fkind = rand_func(rng, mj, g, positive=rng.random() < 0.75)
@@ -733,10 +803,14 @@ class C09(PropertyCheck):
         fr, rel = self._thresholds(rng, table, False)
         return {"tag": f"iterate_{fkind}", "kind": "iterate", "mask": mj, "geom": geom, "f": f,
                 "fr": None if fr is None else q(fr), "rel": None if rel is None else q(rel),
-                "steps": steps, "path": rng.choice(["sampler", "sampler", "decorator"])}
+                "steps": steps, "path": rng.choice(["sampler", "sampler", "decorator", "via_over_sampling"]),
+                **self._call_style(rng, geom)}
 
     def _table_case(self, rng, quick):
-        m, mkind = rand_mask(rng, 5, 5, max_unmasked=12)
+        if rng.random() < 0.1:
+            m, mkind = degenerate_mask(rng)
+        else:
+            m, mkind = rand_mask(rng, 5, 5, max_unmasked=12)
         mj = mask_json(m)
         h, w = mj["h"], mj["w"]
         n = mj["bits"].count("0")
@@ -744,7 +818,7 @@ class C09(PropertyCheck):
         steps = rng.choice([[2, 4], [2, 4, 8], [2, 2, 2], [1, 2, 4], [4, 2], [2], [2, 4, 2, 4], [1, 1]]
                            if exact else [[2, 3], [3, 5, 2], [2, 3, 4], [3], [2, 6], [3, 3]])
         nl = len(steps) + 1
-        style = rng.choice(["converging", "random", "signed", "zeros", "plateau"])
+        style = rng.choice(["converging", "random", "signed", "zeros", "plateau", "ints"])
         table = []
         for l in range(nl):
             row = []
@@ -758,6 +832,8 @@ class C09(PropertyCheck):
                     v = F(rng.randint(-32, 32), 8)
                 elif style == "zeros":
                     v = rng.choice([F(0), F(0), F(1), F(2), F(-1), F(1, 2)])
+                elif style == "ints":
+                    v = F(rng.choice([1, 2, 2, 3, 4, 4, 6, 8, 0, -1]))
                 else:
                     v = F(rng.choice([1, 2, 3, 4, 6, 8]), rng.choice([1, 2, 4]))
                 row.append(v)
@@ -770,10 +846,15 @@ class C09(PropertyCheck):
         slim_idx = [i for i, c in enumerate(mj["bits"]) if c == "0"]
         tslim = [[row[i] for i in slim_idx] for row in table]
         fr, rel = self._thresholds(rng, tslim, exact)
-        return {"tag": f"table_{style}_{'exact' if exact else 'inexact'}", "kind": "iterate", "mask": mj,
-                "geom": rand_geom(rng, exact=True), "table": [qlist(r) for r in table],
+        geom = rand_geom(rng, exact=True)
+        case = {"tag": f"table_{style}_{'exact' if exact else 'inexact'}", "kind": "iterate", "mask": mj,
+                "geom": geom, "table": [qlist(r) for r in table],
                 "fr": None if fr is None else q(fr), "rel": None if rel is None else q(rel),
-                "steps": steps, "path": rng.choice(["sampler", "decorator"]), "exact": exact}
+                "steps": steps, "path": rng.choice(["sampler", "decorator", "via_over_sampling"]),
+                "exact": exact, **self._call_style(rng, geom)}
+        if style == "ints":
+            case["ret_int"] = True           # the callable answers with integer-dtype arrays
+        return case
 
     def _zero_centre_case(self, rng):
         """f = a (y - Y0)^2 on a single-row mask whose pixel centres all have y = Y0 (or the x twin):
@@ -805,14 +886,54 @@ class C09(PropertyCheck):
     def _mask(self, aa, case):
         mj = case["mask"]
         m = np.array([c == "1" for c in mj["bits"]], dtype=bool).reshape(mj["h"], mj["w"])
-        sy, sx, oy, ox = (float(F(v)) for v in case["geom"])
+        sy, sx, oy, ox = self._geom_numbers(case)
         return aa.Mask2D(mask=m, pixel_scales=(sy, sx), origin=(oy, ox))
+
+    @staticmethod
+    def _geom_numbers(case):
+        """pixel scales / origin as Python floats, or as Python ints when integral and asked for"""
+        fr = [F(v) for v in case["geom"]]
+        if case.get("geom_as") == "int" and all(v.denominator == 1 for v in fr):
+            return tuple(int(v) for v in fr)
+        return tuple(float(v) for v in fr)
 
     def _sub_size(self, aa, case, mask):
         s = case["sub"]
         if isinstance(s, int):
             return int(s)
+        if case.get("sub_as") == "list":
+            return aa.Array2D(values=[int(v) for v in s], mask=mask)
         return aa.Array2D(values=np.array([int(v) for v in s]), mask=mask)
+
+    @staticmethod
+    def _values_arg(case):
+        """the sub-values in the container / dtype the case asks for (same real numbers)"""
+        fr = [F(v) for v in case["values"]]
+        how = case.get("values_as", "f64")
+        if how == "i64":
+            return np.array([int(v) for v in fr], dtype=np.int64)
+        if how == "list_int":
+            return [int(v) for v in fr]
+        if how == "tuple_int":
+            return tuple(int(v) for v in fr)
+        if how == "f32":
+            return np.array([float(v) for v in fr], dtype=np.float32)
+        if how == "list_float":
+            return [float(v) for v in fr]
+        return np.array([float(v) for v in fr])
+
+    def _uniform_grid(self, aa, case, mask, os_):
+        """alternative constructors of the same Grid2D (property anchors: dataset/grids.py, Grid2D)"""
+        path = case.get("route") if case["kind"] == "uniform" else case["path"]
+        if path == "dataset_grids":
+            from autoarray.dataset.grids import GridsDataset
+
+            return GridsDataset(mask=mask, over_sampling=aa.OverSamplingDataset(uniform=os_)).uniform
+        if path == "grid_uniform":
+            sy, sx, oy, ox = self._geom_numbers(case)
+            return aa.Grid2D.uniform(shape_native=(case["mask"]["h"], case["mask"]["w"]),
+                                     pixel_scales=(sy, sx), origin=(oy, ox), over_sampling=os_)
+        return aa.Grid2D.from_mask(mask=mask, over_sampling=os_)
 
     def run_impl(self, case):
         if case["kind"] != "uniform":
@@ -826,20 +947,33 @@ class C09(PropertyCheck):
         if kind == "uniform":
             ss = self._sub_size(aa, case, mask)
             route = case.get("route", "direct")
-            if route == "direct":
+            if route in ("direct", "util"):
                 ov = aa.OverSamplerUniform(mask=mask, sub_size=ss)
             elif route == "over_sampling":
                 ov = aa.OverSamplingUniform(sub_size=ss).over_sampler_from(mask=mask)
             else:
-                ov = aa.Grid2D.from_mask(mask=mask, over_sampling=aa.OverSamplingUniform(sub_size=ss)).over_sampler
-            vals = np.array([float(F(v)) for v in case["values"]])
-            b1 = ov.binned_array_2d_from(array=vals)
-            b2 = ov.binned_array_2d_from(array=aa.ArrayIrregular(values=vals))
+                ov = self._uniform_grid(aa, case, mask, aa.OverSamplingUniform(sub_size=ss)).over_sampler
+            vals = self._values_arg(case)
+            if route == "util":
+                # the jitted utilities called directly, as autoarray.util.over_sample exposes them
+                u = aa.util.over_sample
+                n = case["mask"]["bits"].count("0")
+                sub_arr = np.array(expand_sub(case, n), dtype=int)
+                m2 = np.array(mask)
+                b1 = u.binned_array_2d_from(array_2d=np.asarray(vals), mask_2d=m2, sub_size=sub_arr)
+                b2 = b1
+                grid_v = u.grid_2d_slim_over_sampled_via_mask_from(
+                    mask_2d=m2, pixel_scales=mask.pixel_scales, sub_size=sub_arr, origin=mask.origin)
+                sfs_v = u.slim_index_for_sub_slim_index_via_mask_2d_from(mask_2d=m2, sub_size=sub_arr)
+                nat_v = u.native_sub_index_for_slim_sub_index_2d_from(mask_2d=m2, sub_size=sub_arr)
+            else:
+                b1 = ov.binned_array_2d_from(array=vals)
+                b2 = ov.binned_array_2d_from(array=aa.ArrayIrregular(values=np.asarray(vals)))
+                grid_v, sfs_v, nat_v = ov.over_sampled_grid, ov.slim_for_sub_slim, ov.sub_mask_native_for_sub_mask_slim
             return {
-                "grid": [qlist(p) for p in np.asarray(ov.over_sampled_grid, dtype=float).reshape(-1, 2)],
-                "slim_for_sub_slim": [int(v) for v in ov.slim_for_sub_slim],
-                "sub_native": [[int(a), int(b)] for a, b in
-                               np.asarray(ov.sub_mask_native_for_sub_mask_slim).reshape(-1, 2)],
+                "grid": [qlist(p) for p in np.asarray(grid_v, dtype=float).reshape(-1, 2)],
+                "slim_for_sub_slim": [int(v) for v in sfs_v],
+                "sub_native": [[int(a), int(b)] for a, b in np.asarray(nat_v).reshape(-1, 2)],
                 "areas": qlist(np.asarray(ov.sub_pixel_areas, dtype=float)),
                 "unmasked_grid": [qlist(p) for p in
                                   np.asarray(mask.derive_grid.unmasked, dtype=float).reshape(-1, 2)],
@@ -848,7 +982,7 @@ class C09(PropertyCheck):
                 "sub_total": int(ov.sub_total),
             }
         if kind == "func":
-            obj = pc["cls"](f=case["f"])
+            obj = pc["cls"](f=case["f"], ret_int=bool(case.get("ret_int")))
             path = case["path"]
             ss = self._sub_size(aa, case, mask)
             if path == "sampler":
@@ -864,29 +998,57 @@ class C09(PropertyCheck):
                 return {"values": _slim(obj.image_2d_from(grid=grid))}
             os_ = aa.OverSamplingUniform(sub_size=ss)
             if path == "custom_grid":
-                gv = np.array([[float(F(a)), float(F(b))] for a, b in case["grid"]])
+                ga = case.get("grid_as", "f64")
+                if ga == "list_int":
+                    gv = [[int(F(a)), int(F(b))] for a, b in case["grid"]]
+                elif ga == "i64":
+                    gv = np.array([[int(F(a)), int(F(b))] for a, b in case["grid"]], dtype=np.int64).reshape(-1, 2)
+                elif ga == "list_float":
+                    gv = [[float(F(a)), float(F(b))] for a, b in case["grid"]]
+                else:
+                    gv = np.array([[float(F(a)), float(F(b))] for a, b in case["grid"]]).reshape(-1, 2)
+                if len(gv) == 0:
+                    gv = np.zeros((0, 2))   # an empty Python list carries no (y,x) dimension
                 grid = aa.Grid2D(values=gv, mask=mask, over_sampling=os_)
                 return {"values": _slim(obj.image_2d_from(grid=grid))}
-            grid = aa.Grid2D.from_mask(mask=mask, over_sampling=os_)
+            grid = self._uniform_grid(aa, case, mask, os_)
             if path == "decorator_raw":
                 return {"values": _slim(obj.raw_from(grid=grid))}
             return {"values": _slim(obj.image_2d_from(grid=grid))}
         if kind == "iterate":
-            fr = None if case["fr"] is None else float(F(case["fr"]))
-            rel = None if case["rel"] is None else float(F(case["rel"]))
+            def num(v):
+                v = F(v)
+                return int(v) if (case.get("num_as") == "int" and v.denominator == 1) else float(v)
+
+            fr = None if case["fr"] is None else num(case["fr"])
+            rel = None if case["rel"] is None else num(case["rel"])
             steps = [int(s) for s in case["steps"]]
+            if case.get("steps_as") == "tuple":
+                steps = tuple(steps)
+            kw = {"fractional_accuracy": fr, "relative_accuracy": rel, "sub_steps": steps}
+            if case.get("kw_style") == "omit_defaults":
+                # an argument equal to its documented default is left out: same behaviour required
+                if case["fr"] is not None and F(case["fr"]) == F(0.9999):
+                    del kw["fractional_accuracy"]
+                if rel is None:
+                    del kw["relative_accuracy"]
+                if list(steps) == [2, 4, 8, 16] and case["path"] != "sampler":
+                    del kw["sub_steps"]   # only OverSamplingIterate defaults the schedule
             if "table" in case:
                 tab = [np.array([float(F(v)) for v in row]) for row in case["table"]]
                 sy, sx, oy, ox = (float(F(v)) for v in case["geom"])
-                obj = pc["cls"](table=tab, geom=(sy, sx, oy, ox), shape=(case["mask"]["h"], case["mask"]["w"]))
+                obj = pc["cls"](table=tab, geom=(sy, sx, oy, ox), shape=(case["mask"]["h"], case["mask"]["w"]),
+                                ret_int=bool(case.get("ret_int")))
             else:
                 obj = pc["cls"](f=case["f"])
             if case["path"] == "sampler":
-                it = aa.OverSamplerIterate(mask=mask, fractional_accuracy=fr, relative_accuracy=rel,
-                                           sub_steps=steps)
+                it = aa.OverSamplerIterate(mask=mask, **kw)
+                res = it.array_via_func_from(func=pc["plain"], obj=obj)
+            elif case["path"] == "via_over_sampling":
+                it = aa.OverSamplingIterate(**kw).over_sampler_from(mask=mask)
                 res = it.array_via_func_from(func=pc["plain"], obj=obj)
             else:
-                os_ = aa.OverSamplingIterate(fractional_accuracy=fr, relative_accuracy=rel, sub_steps=steps)
+                os_ = aa.OverSamplingIterate(**kw)
                 grid = aa.Grid2D.from_mask(mask=mask, over_sampling=os_)
                 res = obj.image_2d_from(grid=grid)
             return {"values": _slim(res)}
@@ -920,7 +1082,7 @@ class C09(PropertyCheck):
             if "table" in case:
                 return [{"op": "c09.iterate_table", "mask": mj, "table": case["table"],
                          "fr": case["fr"], "rel": case["rel"]}]
-            if case["path"] == "sampler":
+            if case["path"] in ("sampler", "via_over_sampling"):
                 return [{"op": "c09.iterate", "mask": mj, "geom": case["geom"], "f": case["f"],
                          "fr": case["fr"], "rel": case["rel"], "steps": case["steps"]}]
             g = geom_of(case)
